@@ -296,6 +296,14 @@ def fam_body(cfg):
                     for kind in ("str", "textfile", "striter"):
                         yield lambda: mk(entry, "body", hs=kind, method=method, chunked=chunked, headers=[("X-Pre", "1")],
                                  body={"kind": kind, "text": t})
+            # the caller announces a framing of his own while asking (or not) for chunking: whatever framing the message
+            # ends up announcing, the bytes written must be exactly one request under it
+            for d in BODY_DATA[1:]:
+                for kind in ("bytes", "iter"):
+                    for chunked in (False, True):
+                        for fh in (("Content-Length", str(len(d))), ("content-length", str(len(d))), ("Transfer-Encoding", "chunked")):
+                            yield lambda: mk(entry, "body-framing", hs=kind + "+" + fh[0].lower(), method=method, chunked=chunked,
+                                             headers=[("X-Pre", "1"), fh], body={"kind": kind, "data": d})
 
 
 def fam_fields(cfg):
@@ -936,6 +944,35 @@ def judge_fields_query(case, reqs, v):
         v.bad("fields-query-differs", observed=t[:200], expected=want)
 
 
+def judge_body_framing(case, obs, v):
+    """the caller supplied a framing header himself (with or without chunked=True): read the bytes the way the most
+    literal peer would (Transfer-Encoding wins over Content-Length) - they must be exactly ONE request whose body
+    is the body given; which framing headers appear is the statement's 'caller supplies no framing header'
+    exception and not judged here (both at once is counted)."""
+    wires = [w for _, w in obs["wires"] if w]
+    data = b"".join(wires)
+    want = bytes(case["body"]["data"])
+    p = wire_parse(data) if len(wires) == 1 else None
+    if p is None:
+        v.bad("framing-unreadable", observed=data[:300], expected="one complete request on one socket")
+        v.outcome = "sent:unreadable"
+        return v
+    probs = [x for x in p["problems"] if x != "both-content-length-and-transfer-encoding"]
+    if "both-content-length-and-transfer-encoding" in p["problems"]:
+        v.lax.append("both-framing-headers-sent")
+    if probs:
+        v.bad("malformed:" + probs[0], observed=data[:300], expected="a well-formed request")
+    elif p["rest"]:
+        v.bad("bytes-after-the-request", observed={"announced": p["framing"], "left": p["rest"][:120]},
+              expected="nothing after the one request (a peer would read the rest as a second request)")
+    elif p["body"] != want:
+        v.bad("body-differs-under-announced-framing", observed={"announced": p["framing"], "body": p["body"][:120]}, expected=want[:120])
+    if obs["raised"] is not None:
+        v.bad("raised-after-bytes-were-written", observed={"exc": obs["raised"], "msg": obs["msg"]}, expected="failure before the first byte")
+    v.outcome = "sent+" + ",".join(sorted(set(v.lax))) if v.lax else "sent"
+    return v
+
+
 def judge(case, obs):
     v = Verdict()
     if obs["stall"] is not None:
@@ -959,6 +996,8 @@ def judge(case, obs):
                 judge_wire(case, obs["wires"], obs["leftover"], obs["reqs"], v, benign=True)
                 v.lax.append("follow-up-checked")
         return v
+    if case.get("fam") == "body-framing":
+        return judge_body_framing(case, obs, v)
     # bytes were written: whether or not the call went on to raise, they must be one clean request
     judge_wire(case, obs["wires"], obs["leftover"], obs["reqs"], v)
     if "fields" in case and case["method"].upper() in ("DELETE", "GET", "HEAD", "OPTIONS") and not v.viol:
